@@ -438,10 +438,78 @@ func objName(o types.Object) string {
 
 // substitution map of a function: `if b == C1 { x[k] = C2 }` chains over a
 // ranged byte slice.
-func substitutions(w *World, fn *ssa.Function) map[int64]int64 {
+func substitutions(w *World, fn0 *ssa.Function) map[int64]int64 {
 	out := map[int64]int64{}
-	if fn == nil {
+	if fn0 == nil {
 		return out
+	}
+	for _, fn := range staticCone(fn0, 2) {
+		substitutionsIn(fn, out)
+	}
+	return out
+}
+
+// staticCone: fn and the module functions it calls statically (helpers), to
+// the given depth.
+func staticCone(fn *ssa.Function, depth int) []*ssa.Function {
+	seen := map[*ssa.Function]bool{}
+	var out []*ssa.Function
+	var walk func(f *ssa.Function, d int)
+	walk = func(f *ssa.Function, d int) {
+		if f == nil || seen[f] || !inModule(f) || len(f.Blocks) == 0 {
+			return
+		}
+		seen[f] = true
+		out = append(out, f)
+		if d >= depth {
+			return
+		}
+		for _, c := range callsIn(f) {
+			if sc := c.Common().StaticCallee(); sc != nil {
+				walk(sc, d+1)
+			}
+			if mc, ok := c.Common().Value.(*ssa.MakeClosure); ok {
+				walk(mc.Fn.(*ssa.Function), d+1)
+			}
+		}
+	}
+	walk(fn, 0)
+	return out
+}
+
+func substitutionsIn(fn *ssa.Function, out map[int64]int64) {
+	// pure mapping helpers: func(b byte) byte { switch b { case C: return K ... default: return b } }
+	if sig := fn.Signature; sig.Params().Len() == 1 && sig.Results().Len() == 1 && len(fn.Params) >= 1 {
+		p := fn.Params[len(fn.Params)-1]
+		if bt, ok := p.Type().Underlying().(*types.Basic); ok && bt.Kind() == types.Uint8 {
+			allInstrs(fn, func(in ssa.Instruction) {
+				ret, ok := in.(*ssa.Return)
+				if !ok || len(ret.Results) != 1 {
+					return
+				}
+				to, isC := constIntVal(ret.Results[0])
+				if !isC {
+					return
+				}
+				for _, b := range fn.Blocks {
+					if len(b.Instrs) == 0 {
+						continue
+					}
+					ifi, ok := b.Instrs[len(b.Instrs)-1].(*ssa.If)
+					if !ok {
+						continue
+					}
+					bo, ok := ifi.Cond.(*ssa.BinOp)
+					if !ok || bo.Op != token.EQL || bo.X != ssa.Value(p) {
+						continue
+					}
+					from, isC2 := constIntVal(bo.Y)
+					if isC2 && edgeDominates(b, 0, ret.Block()) {
+						out[from] = to
+					}
+				}
+			})
+		}
 	}
 	allInstrs(fn, func(in ssa.Instruction) {
 		st, ok := in.(*ssa.Store)
@@ -477,7 +545,6 @@ func substitutions(w *World, fn *ssa.Function) map[int64]int64 {
 			}
 		}
 	})
-	return out
 }
 
 func c08Base85(w *World, r *Report) {
